@@ -200,7 +200,19 @@ def config_menu_small(seed=0):
     ivs = [(1, None, None), (2, None, None), (None, 1, None), (None, 3, None), (None, None, 1),
            (None, None, 3), (None, None, 5), (1, 3, None), (2, None, 4), (None, 2, 3), (2, 3, 5)]
     shapes = [(1, 1, None), (3, 5, 2)]
-    return [iv + sh for iv in ivs for sh in shapes]
+    # first half alternates the two shapes over the interval kinds, second half the other way round,
+    # so every contiguous sub-menu mixes sampler lengths / data-source lengths / batch sizes
+    return ([iv + shapes[i % 2] for i, iv in enumerate(ivs)] +
+            [iv + shapes[(i + 1) % 2] for i, iv in enumerate(ivs)])
+
+
+def pick(menu, n, seed=0):
+    """n menu entries starting at a seed-dependent rotation (the whole menu if n >= len)."""
+    if n >= len(menu):
+        return list(menu)
+    k = seed % len(menu)
+    rot = menu[k:] + menu[:k]
+    return rot[:n]
 
 
 def side_max_len(cfgs):
